@@ -22,6 +22,11 @@ import (
 	"math"
 )
 
+// maxOps is the maximal number of operators and operands which are
+// interpreted for one glyph.  The largest glyphs in real fonts use a few
+// thousand.
+const maxOps = 1 << 20
+
 type decodeInfo struct {
 	subr         cffIndex
 	gsubr        cffIndex
@@ -107,6 +112,7 @@ func (info *decodeInfo) decodeCharString(code []byte) (*Glyph, error) {
 	stage := stageStart
 
 	var storage []float64
+	numOps := 0
 	cmdStack := [][]byte{code}
 	for len(cmdStack) > 0 {
 		cmdStack, code = cmdStack[:len(cmdStack)-1], cmdStack[len(cmdStack)-1]
@@ -115,6 +121,12 @@ func (info *decodeInfo) decodeCharString(code []byte) (*Glyph, error) {
 		for len(code) > 0 {
 			if len(stack) > maxStack {
 				return nil, errStackOverflow
+			}
+			numOps++
+			if numOps > maxOps {
+				// Nested subroutine calls can multiply the work done for
+				// a few bytes of input.
+				return nil, errTooComplex
 			}
 
 			op := t2op(code[0])
@@ -863,6 +875,7 @@ const (
 
 var (
 	errStackOverflow     = invalidSince("type 2 stack overflow")
+	errTooComplex        = invalidSince("type 2 charstring too complex")
 	errStackUnderflow    = invalidSince("type 2 stack underflow")
 	errIncomplete        = invalidSince("incomplete type 2 charstring")
 	errInvalidSubroutine = invalidSince("invalid type 2 subroutine index")
